@@ -543,9 +543,12 @@ pub struct ClientCfg {
     pub channel_timeout_ms: u64,
     /// a second remote: UDP, `127.0.0.1:<port>` -> TARGET
     pub udp_lport: Option<u16>,
+    /// a second TCP remote `127.0.0.1:<port>` -> TARGET (family L: several local connections pending at once)
+    pub lport2: Option<u16>,
 }
 
-/// Spawn the real `client_main_inner` with one TCP remote `127.0.0.1:lport -> TARGET`.
+/// Spawn the real `client_main_inner` with one TCP remote `127.0.0.1:lport -> TARGET` (and, optionally, a second
+/// TCP remote and / or a UDP remote to the same target).
 pub fn spawn_client(cfg: ClientCfg, sh: Arc<Shared>) -> tokio::task::JoinHandle<()> {
     let ClientCfg { sport, lport, .. } = cfg;
     let ms = |x: u64| OptionalDuration::from(Duration::from_millis(x));
@@ -553,6 +556,9 @@ pub fn spawn_client(cfg: ClientCfg, sh: Arc<Shared>) -> tokio::task::JoinHandle<
         server: ServerUrl::from_str(&format!("{}://127.0.0.1:{sport}/ws", if cfg.wss { "wss" } else { "ws" })).expect("server url"),
         remote: {
             let mut v = vec![Remote::from_str(&format!("127.0.0.1:{lport}:{TARGET_HOST}:{TARGET_PORT}")).expect("remote")];
+            if let Some(l2) = cfg.lport2 {
+                v.push(Remote::from_str(&format!("127.0.0.1:{l2}:{TARGET_HOST}:{TARGET_PORT}")).expect("second remote"));
+            }
             if let Some(u) = cfg.udp_lport {
                 v.push(Remote::from_str(&format!("127.0.0.1:{u}:{TARGET_HOST}:{TARGET_PORT}/udp")).expect("udp remote"));
             }
@@ -609,8 +615,10 @@ pub enum LocalRes {
 
 #[allow(dead_code)]
 pub struct LocalConn {
-    /// why it was opened: "down", "timeout", "nudge", "probe"
+    /// why it was opened: "down", "timeout", "nudge", "probe", "several" (family L)
     pub origin: &'static str,
+    /// which TCP remote of the client it was made to (0: the first, 1: the second)
+    pub remote: usize,
     /// its stream request went through a `mute` connection (and timed out there)
     pub through_mute: bool,
     /// taken before `connect()` was called
@@ -660,7 +668,7 @@ pub fn open_local(lport: u16, origin: &'static str, idx: usize, listener_seen: A
         }
         if got == tok { LocalRes::Echo { connected_ms, echo_ms: sh.now_ms() } } else { LocalRes::Corrupt { connected_ms, got_hex: crate::report::hex(&got[..got.len().min(64)]) } }
     });
-    LocalConn { origin, through_mute: false, open_before_ms, token, task, result: None, deadline_hit: false }
+    LocalConn { origin, remote: 0, through_mute: false, open_before_ms, token, task, result: None, deadline_hit: false }
 }
 
 impl LocalConn {
